@@ -76,12 +76,37 @@ H("C01", "mapper", "c01_mapper_step_2_a", what="inductive step: first applying e
 H("C01", "mapper", "c01_mapper_step_2_b", what="same, shapes foreign/file + own/nofile", vars="as above", bound="K=2", **_ks)
 H("C01", "mapper", "c01_mapper_step_3", what="same, 3 entries", vars="numbers of 3 entries, frame line", bound="K=3", **_ks)
 
+_kc = dict(functions=["cache::iterate_with_lines", "cache::extract_class_name", "ProguardCache::read_string", "watto::StringTable::read"], stubs=[], mode="full")
+for _sh in ["own_nofile", "own_file", "own_synth", "foreign_nofile", "foreign_file", "foreign_synth"]:
+    H("C01", "cache_mod", "c01_cache_kernel_1_" + _sh, what="cache kernel == spec, 1 entry of shape " + _sh + ", all u32 fields under the writer invariant",
+      vars="4 numbers, frame line (any usize), frame file presence", bound="K=1", **_kc)
+_kcs = dict(functions=["cache::iterate_with_lines", "ProguardCache::read_string"], stubs=["cache::extract_class_name -> constant (infeasible in these shapes)"], mode="full")
+H("C01", "cache_mod", "c01_cache_step_2_a", what="cache inductive step, 2 entries", vars="numbers of 2 entries, frame line", bound="K=2", **_kcs)
+H("C01", "cache_mod", "c01_cache_step_2_b", what="cache inductive step, 2 entries, other shapes", vars="as above", bound="K=2", **_kcs)
+H("C01", "cache_mod", "c01_cache_step_3", what="cache inductive step, 3 entries", vars="numbers of 3 entries, frame line", bound="K=3", **_kcs)
+
+# --------------------------------------------------------------------------- C02
+PROPS["C02"] = dict(
+    claim=("kernel differential: for one abstract entry of the representable domain, encoded for the mapper (Option) and for the cache "
+           "(u32::MAX sentinel, string offsets), the two real frame kernels give the same frame for every frame line, with/without frame file, by line and by parameters"),
+    outside=("that the cache *writer* produces this encoding and the right section offsets (write/create_proguard_mapper pipelines did not terminate under CBMC, "
+             "DESIGN.md section 2); text trace APIs (C07); class/method lookup equivalence is C04, signatures C16"),
+    assumptions=["documented encoding: absent original_endline/class/file = u32::MAX; 'no usable range' = (0,0,0,MAX) resp. (0,0,0,None); numbers < 2^32-1"],
+)
+_c02 = dict(functions=["mapper::iterate_with_lines", "mapper::iterate_without_lines", "cache::iterate_with_lines", "cache::iterate_without_lines", "both extract_class_name", "ProguardCache::read_string"], stubs=[])
+for _sh in ["own_nofile", "own_file", "own_synth", "foreign_nofile", "foreign_file", "foreign_synth"]:
+    H("C02", "cache_mod", "c02_kernel_diff_" + _sh, what="mapper kernel == cache kernel, shape " + _sh, vars="s,e,os,oe,oe-presence (u32), frame line (usize), frame file presence", bound="1 entry", **_c02)
+H("C02", "cache_mod", "c02_kernel_diff_params_own", what="by-parameters kernels agree (own class, file set)", vars="all numbers", bound="1 entry", **_c02)
+H("C02", "cache_mod", "c02_kernel_diff_params_foreign", what="by-parameters kernels agree (foreign class)", vars="all numbers", bound="1 entry", **_c02)
+
 # --------------------------------------------------------------------------- C03
 PROPS["C03"] = dict(
     claim="iterate_without_lines (mapper, cache) yields one frame per by-params entry in order with class rule, line 0, no file",
     outside="which entries the builders put into the by-params index (inline filter, de-duplication, per-class reset, offsets): see builder harnesses",
     assumptions=[],
 )
+H("C03", "cache_mod", "c03_cache_without_lines_kernel", what="cache iterate_without_lines == spec, 2 entries", vars="entry numbers", bound="K=2",
+  functions=["cache::iterate_without_lines", "ProguardCache::read_string"], stubs=[])
 H("C03", "mapper", "c03_mapper_without_lines_kernel", what="mapper iterate_without_lines == spec, 2 entries", vars="entry fields", bound="K=2",
   functions=["mapper::iterate_without_lines"], stubs=[])
 
@@ -96,6 +121,15 @@ _c04m = dict(functions=["ProguardMapper::remap_method", "ProguardMapper::remap_c
              vars="all line numbers of every entry, frame line")
 for _n in ["f", "ff", "fg", "fff", "ffg", "gff"]:
     H("C04", "mapper", "c04_mapper_" + _n, what="mapper: remap_method iff all entries agree (original names " + _n + "), frames agree, exact class/method lookup, unknown names yield nothing", **_c04m)
+
+_c04c = dict(functions=["ProguardCache::remap_method", "ProguardCache::get_class", "ProguardCache::get_class_members", "ProguardCache::find_range_by_binary_search", "ProguardCache::remap_frame", "cache::iterate_with_lines"],
+             stubs=["cache::extract_class_name -> constant (no entry has a file)"], bound="<=3 entries + 1 neighbour method, 1 class", vars="all line numbers (writer invariant), frame line")
+for _n in ["f", "ff", "fg", "fff", "ffg", "gff"]:
+    H("C04", "cache_mod", "c04_cache_" + _n, what="cache: remap_method iff all entries agree (original names " + _n + "), frames agree and do not leak into the neighbour method", **_c04c)
+H("C04", "cache_mod", "c04_cache_class_lookup_exact", what="cache class lookup (binary search) is exact for every query <=2 bytes over {a,b,$,.,A,0,m} against classes a, a$, a., b",
+  vars="2 query bytes, query length", bound="4 classes, queries <=2 bytes", functions=["ProguardCache::get_class", "ProguardCache::remap_class", "ProguardCache::remap_throwable"], stubs=[])
+H("C04", "cache_mod", "c04_cache_find_range", what="find_range_by_binary_search returns exactly the maximal Equal run for every sorted comparison table", vars="slice length <=5, run bounds lo<=hi", bound="<=5 members",
+  functions=["ProguardCache::find_range_by_binary_search"], stubs=[])
 
 # --------------------------------------------------------------------------- C08
 PROPS["C08"] = dict(
@@ -112,6 +146,13 @@ for _n in ["unknown_r0", "unknown_r2"]:
     H("C08", "mapper", "c08_mapper_frames_" + _n, what="mapper typed remap keeps 3 unresolvable frames unchanged (unknown class / unknown method)", vars="frame line within a regime", bound="3 frames", **_c08m)
 H("C08", "mapper", "c08_mapper_one_frame", what="one frame, one entry: replaced by its remapped frame or kept unchanged", vars="frame line (any usize)", bound="1 frame, 1 entry", **_c08m)
 H("C08", "mapper", "c08_mapper_two_frames", what="unresolvable frame followed by a resolvable one", vars="frame line (any usize)", bound="2 frames, 1 entry", **_c08m)
+
+_c08c = dict(functions=["ProguardCache::remap_stacktrace_typed", "ProguardCache::remap_throwable", "ProguardCache::remap_frame", "cache::iterate_with_lines"],
+             stubs=["cache::extract_class_name -> constant (no entry has a file)"])
+for _n in ["none", "known", "unknown", "known_unknown_known", "unknown_known_unknown"]:
+    H("C08", "cache_mod", "c08_cache_chain_" + _n, what="cache typed remap keeps cause-chain depth and every throwable; " + _n, vars="message presence", bound="cause depth<=2, no frames", **_c08c)
+H("C08", "cache_mod", "c08_cache_one_frame", what="cache: one frame, one entry: replaced or kept", vars="frame line (any usize)", bound="1 frame", **_c08c)
+H("C08", "cache_mod", "c08_cache_two_frames", what="cache: unresolvable frame followed by a resolvable one", vars="frame line (any usize)", bound="2 frames", **_c08c)
 
 # --------------------------------------------------------------------------- C13
 PROPS["C13"] = dict(
